@@ -133,6 +133,8 @@ def run(chk):
             cache["r"] = oracle(chk)[1]
         return cache["r"]
 
+    chk.default_found = found
+
     for q in KERNELS:
         chk.kernel(q, replayer=lambda c, bad, tir, contract: found())
     try:
